@@ -871,25 +871,44 @@ def stream_interleaved(ctx, n):
         na = len(threads)
         sch = [rng.randrange(na) for _ in range(rng.choice([60, 200, 400]))] + [j for j in range(na) for _ in range(250)]
         jobs.append((threads, nt, sch, rng.random() < 0.5))
+    # directed: updates of message 10 complete while load()'s read of its meta file is still in flight
+    for variant in range(4):
+        nt = 2
+        rc = tuple(RCPTS[:3])
+        upd = [('incr', 10, (3, 4)), ('deliv', 10, (0, 2) if variant % 2 else (1,), (5, 6)), ('setts', 10, 777, (7, 8))]
+        upd = upd[variant % 3:] + upd[:variant % 3]
+        t0 = [('write', (SENDERS[variant], rc, CONTENTS[variant]), 50 + variant, (10,), (1, 2))] + upd + [('get', 10), ('incr', 10, (9, 10)), ('get', 10)]
+        threads = [t0, thread_ops(rng, 1, 100), [('load', 8000), ('get', 10)]]
+        plan = [('ops', 0, 1), 2, 2, ('ops', 0, 4), 2, 2, 2, 2]
+        sch = plan + [rng.randrange(3) for _ in range(100)] + [j for j in range(3) for _ in range(250)]
+        jobs.append((threads, nt, sch, False))
     ids = [10, 11, 12]
     for b in ('disk', 'redis', 'cloud'):
         cfg = dict(codec=True, chunk=11) if b == 'disk' else (dict(mq=True) if b == 'cloud' else {})
         bjobs = []
-        for threads, nt, sch, targeted in jobs:
+        for ji, (threads, nt, sch, targeted) in enumerate(jobs):
             if targeted and len(threads) > nt:
-                # the reader runs inside the window of thread 0's write (envelope stored, rest pending)
-                sch = [0] * write_window(b, threads[0], 11) + [nt] * 80 + sch
+                if b == 'disk' and ji % 2 == 0 and len(threads[0]) >= 3:
+                    # load()'s read of message 10's meta file starts (snapshot) before thread 0's
+                    # second operation and completes after thread 0 finished all but its last one
+                    # (gate on the aio_read completion); thread 0's last operation comes after that
+                    sch = [('ops', 0, 1), nt, nt, ('ops', 0, len(threads[0]) - 1), nt, nt] + sch
+                else:
+                    # the reader runs inside the window of thread 0's write (envelope stored, rest pending)
+                    sch = [0] * write_window(b, threads[0], 11) + [nt] * 80 + sch
             bjobs.append((threads, nt, sch))
-        if b == 'disk':
-            mouts = ctx.model.batch('c04_sched', [[[[enc_op(o) for o in t] for t in th], sch, ids, 11, []] for th, nt, sch in bjobs])
-        elif b == 'redis':
-            mouts = ctx.model.batch('c15_redis_sched', [[[[enc_op(o) for o in t] for t in th], sch, ids] for th, nt, sch in bjobs])
-        else:
-            mouts = ctx.model.batch('c15_cloud_sched', [[[[enc_op(o) for o in t] for t in th], sch, ids, 1, []] for th, nt, sch in bjobs])
-        for (threads, nt, sch), mo in zip(bjobs, mouts):
+        def model_call(threads, plain):
+            if b == 'disk':
+                return ctx.model.call('c04_sched', [[[enc_op(o) for o in t] for t in threads], plain, ids, 11, []])
+            if b == 'redis':
+                return ctx.model.call('c15_redis_sched', [[[enc_op(o) for o in t] for t in threads], plain, ids])
+            return ctx.model.call('c15_cloud_sched', [[[enc_op(o) for o in t] for t in threads], plain, ids, 1, []])
+        for threads, nt, sch in bjobs:
             gates = sf.Gates()
             ad = Adapter(b, cfg, gates=gates)
             try:
+                if ad.disk is not None:
+                    ad.disk.gate_reads = True
                 results = [[] for _ in threads]
 
                 def body(j):
@@ -897,16 +916,19 @@ def stream_interleaved(ctx, n):
                         for o in threads[j]:
                             results[j].append(ad.do(o, 'set'))
                     return run
-                gs, executed = sf.run_threads([body(j) for j in range(len(threads))], sch, gates)
+                gs, executed = sf.run_threads([body(j) for j in range(len(threads))], sch, gates,
+                                              progress=lambda i: len(results[i]))
                 stuck = [g for g in gs if not g.dead]
                 sf.kill_all(gs)
                 gates.enabled = False
                 if ad.disk is not None:
                     ad.disk.gate = None
+                # the model follows the order in which the commands were actually issued
+                mo = model_call(threads, [i for i, _ in executed])
                 final = [ad.do(('get', i)) for i in ids]
                 final_load = ad.do(('load', 1))
                 case = dict(stream='interleaved', backend=b, threads=threads, readers=len(threads) - nt,
-                            schedule=[i for i, _ in executed])
+                            schedule=[i for i, _ in executed], plan=[list(x) if isinstance(x, tuple) else x for x in sch[:len(executed) + 400]])
                 if len(threads) > nt:
                     ctx.count('interleaved-with-reader:' + b)
                 ctx.evaluated(('il', b, tuple(map(tuple, threads)), tuple(i for i, _ in executed)), nontrivial=True)
@@ -964,6 +986,8 @@ def stream_interleaved(ctx, n):
                         key = classify(b, t[k], results[j][k], want[k])
                         if key == 'c15:%s-%s' % (b, t[k][0]):
                             key = 'c15:overlap-%s-%s' % (b, t[k][0])
+                        if b == 'disk' and len(threads) > nt and t[k][0] == 'get' and results[j][k][0] == 'got':
+                            key = 'c15:overlap-disk-load-makes-later-get-stale'
                         fail(ctx, key, dict(case, thread=j, at=k),
                                  '%s: overlapped with operations on other ids, %r returned %r; alone it returns %r'
                                  % (b, t[k], results[j][k], want[k]))
@@ -978,6 +1002,22 @@ def stream_interleaved(ctx, n):
                              % (b, final, final_load, want_final, want_load))
             finally:
                 ad.close()
+
+
+def probe_glob_prefix(ctx):
+    """RedisStorage(prefix) goes into KEYS as a glob: a prefix with '[' does not match itself"""
+    ops = [('write', ('s@x', ('r@x',), CONTENTS[0]), 5, (1,), (1, 2)), ('load', 77), ('get', 1)]
+    ad = Adapter('redis', dict(prefix=PREFIX_PROBE))
+    ref = Ref()
+    try:
+        got = [ad.do(o) for o in ops]
+        want = [ref.step(o) for o in ops]
+    finally:
+        ad.close()
+    ctx.count('probe:glob-prefix:' + ('same' if got == want else 'differs'))
+    if got != want:
+        ctx.note('not judged (reported): RedisStorage(prefix=%r): load() returns %r where the reference returns %r - '
+                 'the prefix is passed to KEYS unescaped and KEYS takes a glob' % (PREFIX_PROBE, got[1], want[1]))
 
 
 # ---------------------------------- redis: real client, many operations in flight
@@ -1076,6 +1116,7 @@ def run(ctx):
     with sf.FdGuard('c15 redis real client overlap'):
         stream_resp_overlap(ctx)
     sf.RespServer.stop_shared()
+    probe_glob_prefix(ctx)
     ctx.note('file descriptors: at most %d open at a time during the run (every stream is checked for leaks)' % sf.FdGuard.peak)
     ctx.extra['rule'] = (
         'random: well-formed single-round operation sequences (2-14 ops + load/get tail) over up to ~4 messages, uuid '
@@ -1141,7 +1182,11 @@ def replay(ctx, case):
                     for o in threads[j]:
                         results[j].append(ad.do(o, 'set'))
                 return run
-            gs, executed = sf.run_threads([body(j) for j in range(len(threads))], c['schedule'] + [j for j in range(len(threads)) for _ in range(300)], gates)
+            if ad.disk is not None:
+                ad.disk.gate_reads = True
+            plan = [tuple(x) if isinstance(x, list) else x for x in c.get('plan', c['schedule'])]
+            gs, executed = sf.run_threads([body(j) for j in range(len(threads))], plan + [j for j in range(len(threads)) for _ in range(300)], gates,
+                                          progress=lambda i: len(results[i]))
             sf.kill_all(gs)
             gates.enabled = False
             if ad.disk is not None:
